@@ -282,8 +282,12 @@ def reified_tree(rng):
                     tgt = node(tv, depth + 1) if maybe(rng, 0.7) else rng.choice(used[:-1])
                 if maybe(rng, 0.12):
                     tr = rng.choice([':ARG3', ':ARG0', ':mod'])       # roles that do not fit the concept: ModelError path
-                inner = [('/', concept + aln(rng, 0.2)), (tr, tgt)]
-                bs.append((sr + '-of', (rv, inner)))
+                if isinstance(tgt, str) and not tgt.startswith('"') and maybe(rng, 0.2):
+                    tgt += aln(rng, 1.0)
+                # the two relations of the reified node may carry role alignments of their own (with or
+                # without an aligned concept): dereify_edges has to decide what the collapsed edge keeps
+                inner = [('/', concept + aln(rng, 0.2)), (tr + aln(rng, 0.25), tgt)]
+                bs.append((sr + '-of' + aln(rng, 0.25), (rv, inner)))
             elif k < 0.6:
                 a1 = aln(rng, 0.3)
                 bs.append((role + a1, rng.choice(used) + (a1 if maybe(rng, 0.5) else '')))    # reifiable re-entrancy
